@@ -7,16 +7,17 @@ Property theorems about the executable model `RlModel/Model/Scan.lean` (the same
 driver `drv_c12` runs against the implementation).  All statements quantify over every row list,
 key list, chunking, number and size of row-sets.
 
-Full statement of the property for ORDER BY (kept visible):
+The property for ORDER BY, `useless_order_sound`:
 
-    def OrderHonoured := ∀ t lay ks c rows,
-        isOrderBy t ks c = true → execPlan lay c = .ok rows → execPlan lay (.order ks c) = .ok rows
+    isOrderBy t ks c = true → execPlan t lay c = .ok rows → execPlan t lay (.order ks c) = .ok rows
 
-i.e. "whenever the optimizer's `useless-order` rule may fire, removing the sort does not change the
-result".  It is FALSE for the code that exists (`useless_order_unsound`, witness = two
-overlapping row-sets, replayed on the implementation by checks/c12.py); it is proved under the
-hypothesis `ScanContractSorted` (`useless_order_sound_partial`), which the executor's actual scan
-satisfies only when the concatenated row-sets happen not to overlap (`concat_scan_sorted_iff`).
+("whenever the optimizer's `useless-order` rule may fire, removing the sort does not change the
+result") holds since fix d36c2ac in /repo: the executor reads keyed tables through the merging
+iterator (`tableScan`), so the planner's contract `ScanContractSorted` is a THEOREM
+(`scan_contract_sorted`, from `merge_heap_sorted` + `memtable_sorted`). Before the fix the scan
+concatenated the row-sets and the statement was refuted (`useless_order_unsound`, finding
+`order:pk-order-multi-rowset`); `concat_scan_sorted_iff` still describes that concatenating scan
+(unkeyed tables, `ScanOptions::default()` at the storage API).
 -/
 namespace RlModel
 
@@ -204,12 +205,44 @@ def witnessLayout : List RowSet :=
   [ { id := 0, rows := memtableFlush [0] [[.i32 1], [.i32 2], [.i32 9]], dead := [], blocks := [[3]] },
     { id := 1, rows := memtableFlush [0] [[.i32 5], [.i32 6], [.i32 7]], dead := [], blocks := [[3]] } ]
 
-/-- Each row-set is sorted, yet the concatenation is sorted in NEITHER snapshot order. -/
-theorem two_rowsets_witness :
-    (∀ rs ∈ witnessLayout, isSortedBy (keyCmp [⟨0, false⟩]) rs.visible = true)
-    ∧ isSortedBy (keyCmp [⟨0, false⟩]) (concatScan witnessLayout) = false
-    ∧ isSortedBy (keyCmp [⟨0, false⟩]) (concatScan witnessLayout.reverse) = false := by
-  decide
+/-- The executor's table scan of a keyed table (fix d36c2ac): whatever the number of row-sets,
+their snapshot order, blocks, delete vectors and the pushed range, key-sorted row-sets give a
+key-sorted scan. -/
+theorem table_scan_sorted (primary : List Nat) (lay : List RowSet) (cols : List Nat) (r : Option KeyRange)
+    (rows : List Row) (hpk : primary ≠ []) (hcols : cols ≠ [])
+    (hs : ∀ rs ∈ lay, SortedBy (keyCmp (ascKeys primary)) rs.rows)
+    (h : tableScan primary lay cols r = .ok rows) :
+    SortedBy (keyCmp (ascKeys primary)) rows := by
+  have h1 : primary.isEmpty = false := by cases primary <;> simp_all
+  have h2 : cols.isEmpty = false := by cases cols <;> simp_all
+  unfold tableScan at h
+  have hcond : (primary.isEmpty || cols.isEmpty) = false := by rw [h1, h2]; rfl
+  rw [hcond] at h
+  rw [if_neg (by decide)] at h
+  generalize (cols ++ primary.filter fun k => !cols.contains k) = cols' at h
+  cases hc : collectOut (lay.map fun rs => scanRowSetC rs cols' r) with
+  | panic s => simp [hc, Out.map] at h
+  | ok streams =>
+    simp only [hc, Out.map, Out.ok.injEq] at h
+    have hstreams : ∀ s ∈ streams, SortedBy (keyCmp (ascKeys primary)) s.flatten := by
+      intro s hsm
+      obtain ⟨rs, hrs, hrsc⟩ := collectOut_mem _ lay streams hc s hsm
+      exact scanRowSetC_sorted _ rs _ r s hrsc (hs rs hrs)
+    subst h
+    split
+    next s => exact hstreams s (by simp)
+    next => exact (merge_heap_sorted (ascKeys primary) streams hstreams).1
+
+/-- the former witness of the defect: both snapshot orders of `{1,2,9}`, `{5,6,7}` now scan sorted -/
+theorem two_rowsets_scan_sorted (rows : List Row) :
+    (tableScan [0] witnessLayout [0] none = .ok rows ∨ tableScan [0] witnessLayout.reverse [0] none = .ok rows) →
+    SortedBy (keyCmp [⟨0, false⟩]) rows := by
+  intro h
+  rcases h with h | h
+  · exact table_scan_sorted [0] witnessLayout [0] none rows (by simp) (by simp) (by decide) h
+  · exact table_scan_sorted [0] witnessLayout.reverse [0] none rows (by simp) (by simp) (by decide) h
+
+example : ∃ rows, tableScan [0] witnessLayout [0] none = .ok rows := ⟨_, rfl⟩
 
 theorem isSortedBy_of_sorted {α : Type} (cmp : α → α → Ordering) (l : List α) (h : SortedBy cmp l) :
     isSortedBy cmp l = true := by
@@ -224,18 +257,6 @@ theorem isSortedBy_of_sorted {α : Type} (cmp : α → α → Ordering) (l : Lis
       have hab : cmp a b ≠ .gt := h'.1 b (by simp)
       simp only [isSortedBy, Bool.and_eq_true]
       exact ⟨by simpa using hab, ih h'.2⟩
-
-/-- `ScanContract.sorted` ("a scan of row-sets that are each key-sorted is key-sorted") is false
-for the concatenating scan: refuted by the witness. -/
-theorem scan_contract_unsound :
-    ¬ (∀ l : List RowSet, (∀ rs ∈ l, SortedBy (keyCmp [⟨0, false⟩]) rs.visible) →
-        SortedBy (keyCmp [⟨0, false⟩]) (concatScan l)) := by
-  intro h
-  have hw := two_rowsets_witness
-  have hs : ∀ rs ∈ witnessLayout, SortedBy (keyCmp [⟨0, false⟩]) rs.visible := by decide
-  have := isSortedBy_of_sorted _ _ (h witnessLayout hs)
-  rw [hw.2.1] at this
-  exact Bool.noConfusion this
 
 /-! ## Compaction -/
 
@@ -291,7 +312,7 @@ example : (compactAll [0] 2 witnessLayout).1.map (·.rows) = [[[.i32 1], [.i32 2
 every scan that includes a primary-key column returns rows in ascending order of the first
 such column. -/
 def ScanContractSorted (t : TableMeta) (lay : List RowSet) : Prop :=
-  ∀ cols f rows c, scanTable lay cols (keyRangeOfFilter f) = .ok rows →
+  ∀ cols f rows c, tableScan t.primary lay cols (keyRangeOfFilter f) = .ok rows →
     cols.find? (fun c => t.primary.contains c) = some c → SortedBy (keyCmp [⟨c, false⟩]) rows
 
 theorem sortedBy_nil_keys (rows : List Row) : SortedBy (keyCmp []) rows := by
@@ -303,7 +324,7 @@ theorem sortedBy_nil_keys (rows : List Row) : SortedBy (keyCmp []) rows := by
 /-- `analyze_order` is sound under the scan contract: every plan's output is sorted by the key
 list the analysis assigns to it. -/
 theorem order_analysis_sound (t : TableMeta) (lay : List RowSet) (hc : ScanContractSorted t lay)
-    (p : Plan) (rows : List Row) (h : execPlan lay p = .ok rows) :
+    (p : Plan) (rows : List Row) (h : execPlan t lay p = .ok rows) :
     SortedBy (keyCmp (analyzeOrder t p)) rows := by
   induction p generalizing rows with
   | scan cols f =>
@@ -315,7 +336,7 @@ theorem order_analysis_sound (t : TableMeta) (lay : List RowSet) (hc : ScanContr
     · exact sortedBy_nil_keys rows
   | filter c p ih =>
     simp only [execPlan] at h
-    cases hp : execPlan lay p with
+    cases hp : execPlan t lay p with
     | panic s => simp [hp, Out.map] at h
     | ok r =>
       simp only [hp, Out.map, Out.ok.injEq] at h
@@ -328,7 +349,7 @@ theorem order_analysis_sound (t : TableMeta) (lay : List RowSet) (hc : ScanContr
     simp [SortedBy]
   | order ks p _ =>
     simp only [execPlan] at h
-    cases hp : execPlan lay p with
+    cases hp : execPlan t lay p with
     | panic s => simp [hp, Out.map] at h
     | ok r =>
       simp only [hp, Out.map, Out.ok.injEq] at h
@@ -336,7 +357,7 @@ theorem order_analysis_sound (t : TableMeta) (lay : List RowSet) (hc : ScanContr
       exact sortL_sorted _ (keyCmp_laws ks) r
   | limit n m p ih =>
     simp only [execPlan] at h
-    cases hp : execPlan lay p with
+    cases hp : execPlan t lay p with
     | panic s => simp [hp, Out.map] at h
     | ok r =>
       simp only [hp, Out.map, Out.ok.injEq] at h
@@ -350,7 +371,7 @@ theorem order_analysis_sound (t : TableMeta) (lay : List RowSet) (hc : ScanContr
       exact List.Pairwise.sublist hsub (ih r hp)
   | topn n m ks p _ =>
     simp only [execPlan] at h
-    cases hp : execPlan lay p with
+    cases hp : execPlan t lay p with
     | panic s => simp [hp, Out.bind] at h
     | ok r =>
       simp only [hp, Out.bind, topnExec, Out.ok.injEq] at h
@@ -369,8 +390,8 @@ theorem sortedBy_prefix (ks1 ks2 : List OrdKey) (rows : List Row) (h : SortedBy 
 contract: removing the sort does not change the rows at all. -/
 theorem useless_order_sound_partial (t : TableMeta) (lay : List RowSet) (hc : ScanContractSorted t lay)
     (ks : List OrdKey) (c : Plan) (rows : List Row)
-    (hrule : isOrderBy t ks c = true) (h : execPlan lay c = .ok rows) :
-    execPlan lay (.order ks c) = .ok rows := by
+    (hrule : isOrderBy t ks c = true) (h : execPlan t lay c = .ok rows) :
+    execPlan t lay (.order ks c) = .ok rows := by
   have hs := order_analysis_sound t lay hc c rows h
   have hpre : ∃ rest, analyzeOrder t c = ks ++ rest := by
     have := List.isPrefixOf_iff_prefix.1 hrule
@@ -384,19 +405,32 @@ theorem useless_order_sound_partial (t : TableMeta) (lay : List RowSet) (hc : Sc
 example : isOrderBy ⟨[0], true⟩ [⟨0, false⟩] (.filter (.const (.bool true)) (.scan [0, 1] (.const (.bool true)))) = true := by
   decide
 
-/-- Witness plan: `SELECT c0 FROM t ORDER BY c0` on the two row-sets. -/
-def witnessTable : TableMeta := { primary := [0], sortedByPk := true }
-def witnessScan : Plan := .scan [0] (.const (.bool true))
+/-- The planner's scan contract HOLDS for the scan the executor performs (fix d36c2ac), for tables
+with one sort-key column whose row-sets are key-sorted (`memtable_sorted`, `compaction_sorted_perm`). -/
+theorem scan_contract_sorted (t : TableMeta) (lay : List RowSet) (k : Nat) (hk : t.primary = [k])
+    (hs : ∀ rs ∈ lay, SortedBy (keyCmp [⟨k, false⟩]) rs.rows) : ScanContractSorted t lay := by
+  intro cols f rows c hscan hfind
+  have hc : c = k := by
+    have := List.find?_some hfind
+    simpa [hk] using this
+  subst hc
+  have hcols : cols ≠ [] := by
+    intro he; subst he; simp at hfind
+  rw [hk] at hscan
+  exact table_scan_sorted [c] lay cols _ rows (by simp) hcols (by simpa [ascKeys] using hs) hscan
 
-/-- The full statement is FALSE for the scan the executor performs: on the witness layout the rule
-fires, the child returns 1 2 9 5 6 7, the sort would return 1 2 5 6 7 9. -/
-theorem useless_order_unsound :
-    ¬ (∀ (t : TableMeta) (lay : List RowSet) (ks : List OrdKey) (c : Plan) (rows : List Row),
-        isOrderBy t ks c = true → execPlan lay c = .ok rows → execPlan lay (.order ks c) = .ok rows) := by
-  intro h
-  have := h witnessTable witnessLayout [⟨0, false⟩] witnessScan
-    [[.i32 1], [.i32 2], [.i32 9], [.i32 5], [.i32 6], [.i32 7]] (by decide) (by decide)
-  revert this
-  decide
+/-- `useless-order` is sound for the code that exists: when `is_orderby` holds, removing the sort
+does not change the rows. -/
+theorem useless_order_sound (t : TableMeta) (lay : List RowSet) (k : Nat) (hk : t.primary = [k])
+    (hs : ∀ rs ∈ lay, SortedBy (keyCmp [⟨k, false⟩]) rs.rows)
+    (ks : List OrdKey) (c : Plan) (rows : List Row)
+    (hrule : isOrderBy t ks c = true) (h : execPlan t lay c = .ok rows) :
+    execPlan t lay (.order ks c) = .ok rows :=
+  useless_order_sound_partial t lay (scan_contract_sorted t lay k hk hs) ks c rows hrule h
+
+def witnessTable : TableMeta := { primary := [0], sortedByPk := true }
+
+example : isOrderBy witnessTable [⟨0, false⟩] (.scan [0] (.const (.bool true))) = true
+    ∧ ∀ rs ∈ witnessLayout, SortedBy (keyCmp [⟨0, false⟩]) rs.rows := by decide
 
 end RlModel
